@@ -9,7 +9,7 @@ The model follows the code *after* the `fix:` commit that added the `amount == 0
 original code evaluated `*limb >> (64 - 0)` (overflow panic in debug builds, unshifted garbage in
 release builds) — that outcome is `shlSmallOrig`/`shrSmallOrig`, kept for the defect witness.
 -/
-namespace Ruint.Shift
+namespace Ruint.ShiftK
 
 /-- the `for limb in limbs` loop of `shift_left_small`, `overflow` is the running word. -/
 def shlLoop (amount : Nat) : List Nat → Nat → List Nat × Nat
@@ -47,4 +47,4 @@ def shlSmallOrig (limbs : List Nat) (amount : Nat) : Option (List Nat × Nat) :=
 def shrSmallOrig (limbs : List Nat) (amount : Nat) : Option (List Nat × Nat) :=
   if amount = 0 ∧ limbs ≠ [] then none else some (shrLoop amount limbs)
 
-end Ruint.Shift
+end Ruint.ShiftK
